@@ -1,7 +1,7 @@
 ----------------------------- MODULE PrintLayout -----------------------------
 (* C30 / C31: what a LAYOUT of a source file is, independent of any printer.
 
-   A file is a token skeleton t1 .. tn (PrintLayoutSkel!Skel) plus one trivia string per GAP:
+   A file is a token skeleton t1 .. tn (the values of PrintLayoutSkel!Skel) plus one trivia string per GAP:
         gap 0 = before t1 (start of file), gap i = after ti, gap n = between the last token and end of file.
    The text of the file is  trivia(0) t1 trivia(1) t2 ... tn trivia(n)   (Items), nothing else: whatever a printer
    in round-trip mode emits has to be exactly this concatenation (C30), and whatever a formatter emits has to
@@ -15,8 +15,9 @@
    Every gap has a CLASS computed from the tokens alone:   <scope>:<token before>|<token after>
    with scope = innermost open bracket (file, body = declaration braces, lit = message-literal braces,
    alit = message-literal angle brackets, opts = compact-option brackets, arr = list brackets inside a
-   literal, paren, angle = map type parameters).  The FEATURE VECTOR of a layout is the set of
-   "<class>=<trivia kind>" strings of its placements.  Known findings are keyed by (minimal) feature sets. *)
+   literal, paren, angle = map type parameters).  The FEATURE VECTOR of a layout is the set of Feature strings
+   "<trivia category>@<zone>(<class>)=<trivia kind>" of its placements.  Known findings are keyed by (minimal)
+   feature sets. *)
 EXTENDS Naturals, Sequences, FiniteSets, PrintLayoutSkel
 
 (* ---- trivia kinds.  "<U+XXXX>" stands for that code point (TLA+ strings are ASCII here). ---- *)
@@ -56,13 +57,12 @@ CoreKinds == {"none", "sp", "lf", "lf3", "blank", "trail", "ownlcom", "bcom"}
 BOFKinds == {"bom", "lf", "blank", "ownlcom", "detach", "lcom", "bcom", "sp", "crlf"}
 EOFKinds == {"none", "blank", "crlf", "sp", "eofcom", "lcom", "trail", "ownlcom", "detach", "bcom", "mlbcom", "lf3"}
 
-(* ---- skeleton accessors ---- *)
-Toks(s) == Skel[s]
-NTok(s) == Len(Skel[s])
+(* ---- skeleton accessors: s is a token skeleton, i.e. a sequence of <<text, category, default gap kind>> ---- *)
+NTok(s) == Len(s)
 Gaps(s) == 0..NTok(s)
-TokText(s, i) == Skel[s][i][1]
-TokCat(s, i) == Skel[s][i][2]
-DefaultKind(s, g) == IF g = 0 THEN "none" ELSE Skel[s][g][3]
+TokText(s, i) == s[i][1]
+TokCat(s, i) == s[i][2]
+DefaultKind(s, g) == IF g = 0 THEN "none" ELSE s[g][3]
 
 (* a layout: pl is a set of <<gap, kind>> with at most one kind per gap *)
 IsLayout(s, pl) == /\ \A p \in pl : p[1] \in Gaps(s) /\ p[2] \in Kinds
@@ -121,7 +121,34 @@ Balanced(s) == LET q == ScopeSeq(s) IN \A i \in 1..Len(q) : q[i] # "none"      \
 GapScope(s, g) == IF g = 0 THEN "file" ELSE ScopeSeq(s)[g]
 Class(s, g) == GapScope(s, g) \o ":" \o TokName(s, g) \o "|" \o TokName(s, g + 1)
 
-Feature(s, p) == Class(s, p[1]) \o "=" \o p[2]
+(* ---- coarse coordinates of a placement: trivia CATEGORY and ZONE of the gap ---- *)
+KindCat(k) ==
+  CASE k = "none" -> "none"
+    [] k \in {"sp", "sp2", "tab"} -> "hspace"
+    [] k \in {"lf", "lf2", "lf3", "lf4", "lf6"} -> "newline"
+    [] k = "crlf" -> "crlf"
+    [] k = "ff" -> "formfeed"
+    [] k = "blank" -> "blankline"
+    [] k \in {"lcom", "trail"} -> "trailing-line"        \* line comment on the line of the token before it
+    [] k = "ownlcom" -> "own-line"                        \* line comment on a line of its own
+    [] k = "detach" -> "detached"                         \* ... with blank lines around it
+    [] k \in {"bcom", "spbcom"} -> "inline-block"         \* block comment inside a line
+    [] k = "mlbcom" -> "own-block"                        \* multi-line block comment on lines of its own
+    [] k = "eofcom" -> "eof-line"
+    [] k = "bom" -> "bom"
+(* between: the gap separates two declarations of a file or of a declaration body (after `;`, after the `{` that
+   opens a body, after the `}` that closes one) - where comments conventionally live;  inside: anywhere else,
+   i.e. in the middle of a statement or inside an option value *)
+ZoneOf(s, g, scope, scopeBefore) ==      \* scope of gap g, scope of gap g-1
+  LET t == TokText(s, g)
+      boundary == t \in {";", "{"} \/ (t = "}" /\ scopeBefore = "body")
+  IN IF g = NTok(s) THEN "eof" ELSE IF g = 0 THEN "bof"
+     ELSE IF scope \in {"file", "body"} /\ boundary THEN "between" ELSE "inside"
+Zone(s, g) == ZoneOf(s, g, GapScope(s, g), IF g > 0 THEN GapScope(s, g - 1) ELSE "file")
+
+(* feature of a placement:  <category>@<zone>(<gap class>)=<kind>   (coarse coordinates first, so that a known
+   finding can be stated for a whole family with a prefix) *)
+Feature(s, p) == KindCat(p[2]) \o "@" \o Zone(s, p[1]) \o "(" \o Class(s, p[1]) \o ")=" \o p[2]
 Features(s, pl) == {Feature(s, p) : p \in pl}
 
 (* ---- the text of a layout, as the sequence of strings to concatenate ---- *)
